@@ -36,6 +36,12 @@ def to_sym(node, env, cls):
         return sp.nsimplify(node.value) if float(node.value).is_integer() else sp.Float(node.value)
     if isinstance(node, ast.Name) and node.id in env:
         return env[node.id]
+    if isinstance(node, ast.Name):
+        # module-level numeric constant of emg3d.maps
+        for st in intake.module_ast('maps')[1].body:
+            if isinstance(st, ast.Assign) and any(isinstance(t, ast.Name) and t.id == node.id for t in st.targets) \
+                    and isinstance(st.value, ast.Constant) and isinstance(st.value.value, (int, float)):
+                return to_sym(st.value, env, cls)
     if isinstance(node, ast.UnaryOp) and isinstance(node.op, ast.USub):
         return -to_sym(node.operand, env, cls)
     if isinstance(node, ast.BinOp):
@@ -57,6 +63,12 @@ def to_sym(node, env, cls):
             fn = {'log10': lambda u: sp.log(u, 10), 'log': sp.log, 'exp': sp.exp, 'sqrt': sp.sqrt, 'abs': sp.Abs}.get(f.attr)
             if fn is not None:
                 return fn(x)
+        if isinstance(f, ast.Attribute) and isinstance(f.value, ast.Name) and f.value.id == 'np' and not node.keywords:
+            a = [to_sym(x, env, cls) for x in node.args]
+            if f.attr == 'clip' and len(a) == 3:
+                return sp.Min(sp.Max(a[0], a[1]), a[2])
+            if f.attr in ('maximum', 'minimum') and len(a) == 2:
+                return (sp.Max if f.attr == 'maximum' else sp.Min)(*a)
         if isinstance(f, ast.Attribute) and isinstance(f.value, ast.Name) and f.value.id == 'self' and f.attr in ('backward', 'forward') \
                 and len(node.args) == 1:
             return method_term(cls, f.attr, to_sym(node.args[0], env, cls))
